@@ -6,8 +6,10 @@ Model of `pedantic/decorators/fn_deco_validate/fn_deco_validate.py` (`validate`:
 
 Taken from `PedVerif.Gen.Validate` (regenerated from the source on every run): the `is_required` rule, the order of the
 three loops and which sit under `if not ignore_input`, the `wants_args` rule and the test of the `zip` branch, the dispatch
-programs of `wrapper` and `async_wrapper`, the `if` of the KWARGS_WITHOUT_NONE filter, and the decision code of
-`_split_by_signature`.
+programs of `wrapper` and `async_wrapper`, the `if` of the KWARGS_WITHOUT_NONE filter, the decision code of
+`_split_by_signature`, and the naming of a rejection: `ParameterException.from_validator_exception` (which of the two names —
+the Parameter's own, or the `parameter_name` the `ValidatorException` already carries — ends up in the exception), the
+arguments `Parameter.validate` passes to it, and `Validator.validate_param` (which labels the exception of a delegate).
 
 Conversion (`convert_value`) and validators are *abstract* functions `PV → Except Rej PV` stored in the parameter, so
 every theorem holds for any validator, user-defined ones included.
@@ -50,13 +52,27 @@ def Assoc.set : Assoc → Name → PV → Assoc
   | (k, x) :: r, n, v => if k == n then (n, v) :: r else (k, x) :: Assoc.set r n v
 def Assoc.has (d : Assoc) (k : Name) : Bool := (d.get? k).isSome
 
+/-! `emptyName` (generated constant) is the empty string as a name: the default `parameter_name` of a `ValidatorException`;
+    `''` is the only falsy string. -/
+
 /-- how a conversion / validator step can fail -/
 inductive Rej where
-  | rejected              -- `ConversionError` (conversion) / `ValidatorException` (validator)
+  /-- `ConversionError` (conversion) / `ValidatorException` (validator).  `carried` is the `parameter_name` attribute the
+      `ValidatorException` has when it leaves the step: `emptyName` (`''`) for an ordinary validator, any name at all for a
+      validator that sets it itself or that delegates to other validators through `Validator.validate_param(value,
+      parameter_name=…)` — the name of a nested field, of *another* Parameter of the same function, … -/
+  | rejected (carried : Name)
   | crash (id : Nat)      -- any other exception object
 deriving DecidableEq, Repr
 
 abbrev Step := PV → Except Rej PV
+
+/-- `Validator.validate_param(value, parameter_name)` of a validator whose `validate` is `f`: the `ValidatorException` of the
+    delegate is labelled (generated rule: `ex.parameter_name = parameter_name`) and re-raised; everything else passes -/
+def validateParam (f : Step) (parameterName : Name) : Step := fun v =>
+  match f v with
+  | .error (.rejected carried) => .error (.rejected (validateParamName parameterName carried))
+  | r => r
 
 /-- why a `ParameterException` was raised -/
 inductive Why where
@@ -85,17 +101,21 @@ structure VParam where
   conv : Option Step            -- `value_type` given: `convert_value(·, value_type)`
   validators : List Step
   flaskJson : Bool              -- `isinstance(p, FlaskJsonParameter)`
+  /-- a Parameter's name is the name of a parameter of the decorated function: a non-empty string -/
+  nameNonEmpty : (name != emptyName) = true := by decide
 
 /-- `self.is_required = False if default != NoValue else required` (generated) -/
 def VParam.isRequired (p : VParam) : Bool := isRequiredRule p.dflt.isSome p.requiredArg
 
-/-- the `for validator in self.validators` loop: each validator receives its predecessor's output -/
+/-- the `for validator in self.validators` loop: each validator receives its predecessor's output; a `ValidatorException` `e`
+    becomes `self.exception_type.from_validator_exception(exception=e, parameter_name=self.name)`, whose `parameter_name` is
+    the generated `chainHandlerName self.name e.parameter_name` -/
 def runValidators (name : Name) : List Step → Nat → PV → Except VExc PV
   | [], _, v => .ok v
   | f :: fs, j, v =>
     match f v with
     | .ok w => runValidators name fs (j + 1) w
-    | .error .rejected => .error (.parameter name (.validator j))
+    | .error (.rejected carried) => .error (.parameter (chainHandlerName name carried) (.validator j))
     | .error (.crash e) => .error (.foreign e)
 
 /-- `Parameter.validate` -/
@@ -108,7 +128,7 @@ def VParam.validate (p : VParam) (v : PV) : Except VExc PV :=
     | some c =>
       match c (.obj i) with
       | .ok w => runValidators p.name p.validators 0 w
-      | .error .rejected => .error (.parameter p.name .convert)
+      | .error (.rejected _) => .error (.parameter p.name .convert)   -- `self.raise_exception(...)`: `parameter_name=self.name`
       | .error (.crash e) => .error (.foreign e)
 
 /-- `parameter_dict = {parameter.name: parameter for parameter in parameters}`: the last declaration of a name wins -/
